@@ -13,7 +13,7 @@ use crate::common::report::{Report, Violation};
 use erbium::dhcp::{self, dhcppkt, pool};
 use rayon::prelude::*;
 use serde_json::{Value, json};
-use std::collections::BTreeSet;
+use std::collections::{BTreeMap, BTreeSet};
 use std::sync::Mutex;
 use std::sync::atomic::{AtomicU64, Ordering};
 use yaml_rust::{Yaml, YamlEmitter, YamlLoader};
@@ -216,7 +216,7 @@ fn implied_pool_too_big(text: &str) -> bool {
 }
 
 /// load + serve; returns (class, violations)
-fn judge_text(text: &str, origin: &str, tally: &Tally, dns_queue: &Mutex<Vec<(String, String)>>, shipped_routes: &BTreeSet<String>) -> (String, Vec<Violation>) {
+fn judge_text(text: &str, origin: &str, tally: &Tally, dns_queue: &Mutex<BTreeMap<String, String>>, shipped_routes: &BTreeSet<String>) -> (String, Vec<Violation>) {
     if implied_pool_too_big(text) {
         return ("skipped-pool-over-2^20".into(), vec![]);
     }
@@ -319,8 +319,17 @@ fn judge_text(text: &str, origin: &str, tally: &Tally, dns_queue: &Mutex<Vec<(St
         let sig = format!("{:?}", g.dns_routes);
         if !shipped_routes.contains(&sig) {
             let mut q = dns_queue.lock().unwrap();
-            if !q.iter().any(|(s, _)| *s == sig) && q.len() < 400 {
-                q.push((sig, text.to_string()));
+            // every distinct route table is kept (the smallest text producing it, so the choice does not
+            // depend on thread timing); the live pass serves them in sorted order
+            match q.get_mut(&sig) {
+                Some(t) => {
+                    if (text.len(), text) < (t.len(), t.as_str()) {
+                        *t = text.to_string();
+                    }
+                }
+                None => {
+                    q.insert(sig, text.to_string());
+                }
             }
         }
     }
@@ -584,7 +593,18 @@ fn byte_texts(name: &str, text: &str) -> Vec<(String, String)> {
 // (3) DNS routes through the live service
 // ---------------------------------------------------------------------------
 
-fn dns_serve(text: &str) -> Vec<Violation> {
+#[derive(Default)]
+struct DnsTally {
+    tables: u64,
+    not_loadable: u64,
+    queries: u64,
+    answered: u64,
+    closed: u64,
+    silent: u64,
+    rig_errors: Vec<String>,
+}
+
+fn dns_serve(text: &str, dt: &mut DnsTally) -> Vec<Violation> {
     use crate::enet::{Rig, TcpClient};
     use crate::refdns as rd;
     // take the dns-routes section of the text and serve it on a loopback listener
@@ -600,8 +620,16 @@ fn dns_serve(text: &str) -> Vec<Violation> {
     let spec = crate::enet::RigSpec { listeners: vec!["::1".into()], n_upstreams: 0, yaml };
     let mut rig = match Rig::start(&spec) {
         Ok(r) => r,
-        Err(_) => return vec![], // not loadable in this reduced form: nothing to serve
+        Err(e) if e.starts_with("rig config rejected") => {
+            dt.not_loadable += 1; // not loadable in this reduced form: nothing to serve
+            return vec![];
+        }
+        Err(e) => {
+            dt.rig_errors.push(e);
+            return vec![];
+        }
     };
+    dt.tables += 1;
     // names: each configured suffix, with a label in front, and an unrelated name
     let mut names: Vec<String> = vec!["unrelated.test".into(), "".into()];
     if let Yaml::Array(rs) = routes {
@@ -621,7 +649,10 @@ fn dns_serve(text: &str) -> Vec<Violation> {
     let mut vs = vec![];
     for (i, n) in names.iter().enumerate().take(12) {
         let q = rd::encode(&rd::query(i as u16, &rd::name(n.trim_end_matches('.')), rd::T_A, 1, true, None), false);
-        if let Ok(mut c) = TcpClient::connect(None, rig.listen_addr(0)) {
+        dt.queries += 1;
+        match TcpClient::connect(None, rig.listen_addr(0)) {
+          Err(e) => dt.rig_errors.push(format!("connect: {e}")),
+          Ok(mut c) => {
             let _ = c.conn.send_frame(&q);
             for _ in 0..60 {
                 rig.pump(4);
@@ -640,6 +671,17 @@ fn dns_serve(text: &str) -> Vec<Violation> {
                     }
                 }
             }
+            if !c.conn.frames_in.is_empty() {
+                dt.answered += 1;
+            } else if c.conn.eof {
+                dt.closed += 1;
+            } else {
+                dt.silent += 1;
+                if std::env::var("VERIF_C19_TRACE").is_ok() {
+                    eprintln!("silent: name {n:?} routes {}", body.replace('\n', " | "));
+                }
+            }
+          }
         }
         let ps = crate::common::panics::take_all();
         if let Some(p) = ps.first() {
@@ -662,8 +704,13 @@ pub fn run(tier: &str, replay: Option<Value>) -> ! {
     }
     let thorough = tier == "thorough";
     crate::enet::set_shard(29);
+    // own network namespace (loopback only) before any other thread exists: forward routes of the
+    // mutated texts name arbitrary addresses, and whether those are routable must not depend on
+    // the machine the check runs on (without a route the send fails at once and the client gets
+    // SERVFAIL; with one, a TCP connect would sit in the kernel's real-time SYN timer)
+    let isolated = crate::enet::isolate_network();
     let tally = Tally::default();
-    let dns_queue: Mutex<Vec<(String, String)>> = Mutex::new(vec![]);
+    let dns_queue: Mutex<BTreeMap<String, String>> = Mutex::new(BTreeMap::new());
     let seeds = seeds();
     // routes of the shipped texts are served once, mutated ones when they differ
     let mut shipped_routes: BTreeSet<String> = BTreeSet::new();
@@ -675,7 +722,7 @@ pub fn run(tier: &str, replay: Option<Value>) -> ! {
         let (c, vs) = judge_text(&text, "replay", &tally, &dns_queue, &shipped_routes);
         eprintln!("  outcome: {c}");
         rep.violations_from(vs);
-        rep.violations_from(dns_serve(&text));
+        rep.violations_from(dns_serve(&text, &mut DnsTally::default()));
         rep.finish();
     }
     if seeds.len() < 3 {
@@ -694,11 +741,12 @@ pub fn run(tier: &str, replay: Option<Value>) -> ! {
             shipped_routes.insert(format!("{:?}", conf.try_read().unwrap().dns_routes));
         }
     }
+    let mut dt = DnsTally::default();
     for (_s, t) in std::mem::take(&mut *dns_queue.lock().unwrap()) {
-        rep.violations_from(dns_serve(&t));
+        rep.violations_from(dns_serve(&t, &mut dt));
     }
     for (_n, t) in &seeds {
-        rep.violations_from(dns_serve(t));
+        rep.violations_from(dns_serve(t, &mut dt));
     }
     // generate
     let mut texts: Vec<(String, String)> = vec![];
@@ -738,18 +786,21 @@ pub fn run(tier: &str, replay: Option<Value>) -> ! {
     let n_dns = q.len();
     let mut seen = BTreeSet::new();
     for (_sig, t) in q {
-        for v in dns_serve(&t) {
+        for v in dns_serve(&t, &mut dt) {
             if seen.insert(format!("{:?}", v.sig)) {
                 rep.violation(v);
             }
         }
+    }
+    if let Some(e) = dt.rig_errors.first() {
+        rep.machinery_error(&format!("live DNS pass: {} rig failure(s), first: {e}", dt.rig_errors.len()));
     }
     crate::common::clock::unset();
     rep.cov("evaluations", tally.loads.load(Ordering::Relaxed));
     rep.cov("distinct_nontrivial", tally.accepted.load(Ordering::Relaxed));
     rep.cov("rule", "texts = shipped examples (man page .EX blocks, erbium.conf.example commented and uncommented) and a skeleton naming every remaining key and DHCP option type; structural sweep: every node <- 21 wrong-type/boundary values, every scalar <- 12 duration shapes, misspelt/upper-cased, every prefix-shaped scalar <- every length (quick: 0..34 and boundaries; thorough 0..255) x 9 address forms (network, host bits set, zero, v4-mapped, top of the IPv4 / IPv6 space), every entry removed / key misspelt, every PAIR of duration-valued scalars set to each of 5 huge values at once; byte sweep: every offset x {deletion, 17 structural octets}. Every accepted text is served (ACL decisions, RA build+serialise per interface, DISCOVER+REQUEST from 4 receiving addresses x 3 clients; route variants through the live DNS service). distinct_nontrivial = texts the loader accepted (and that were therefore served)");
     rep.cov("exhaustive", true);
-    rep.cov("parts", json!({"structural_texts": n_struct, "byte_texts": n_bytes, "accepted_and_served": tally.accepted.load(Ordering::Relaxed), "serve_steps": tally.served.load(Ordering::Relaxed), "route_variants_served_live": n_dns}));
+    rep.cov("parts", json!({"structural_texts": n_struct, "byte_texts": n_bytes, "accepted_and_served": tally.accepted.load(Ordering::Relaxed), "serve_steps": tally.served.load(Ordering::Relaxed), "own_network_namespace": isolated, "route_variants_distinct": n_dns, "route_tables_served_live": dt.tables, "route_texts_not_loadable_standalone": dt.not_loadable, "live_queries": dt.queries, "live_answered": dt.answered, "live_closed_without_answer": dt.closed, "live_silent_after_160s": dt.silent}));
     rep.cov("outcome_classes", json!(classes));
     rep.cov("samples", json!(seeds.iter().map(|(n, t)| json!({"seed": n, "octets": t.len()})).collect::<Vec<_>>()));
     rep.assume("configurations whose IPv4 pools exceed 2^20 addresses are loaded but not served, and apply-subnet prefixes shorter than /12 and apply-range spans over 2^20 are not loaded (resource exhaustion is not claimed)");
